@@ -33,6 +33,11 @@ type GenAccount struct {
 type GenValidator struct {
 	Actor *Actor
 	Stake int64
+	// genesis variety (a state exported from a running chain holds all of these)
+	Jailed      bool
+	JailedUntil time.Time // signing info of a jailed validator
+	Unstaking   bool
+	Completion  time.Time // completion time of an unstaking validator
 }
 
 // GenesisConfig is the harness description of a consistent genesis.
@@ -45,6 +50,9 @@ type GenesisConfig struct {
 	DefOwner   *Actor
 	DAOOwner   *Actor
 	DAOTokens  int64
+	// Exported: the pos genesis is marked as exported from another chain and lists the previous-state powers
+	// (the validators Tendermint already has) instead of letting InitGenesis compute the first update batch
+	Exported bool
 }
 
 func coins(n int64) sdk.Coins { return sdk.NewCoins(sdk.NewCoin(Denom, sdk.NewInt(n))) }
@@ -69,9 +77,25 @@ func (g GenesisConfig) AppState() []byte {
 		total.Add(total, bal)
 	}
 	var vals []posTypes.Validator
+	sinfos := map[string]posTypes.ValidatorSigningInfo{}
+	var prevPowers []posTypes.PrevStatePowerMapping
+	prevTotal := int64(0)
 	for _, v := range g.Validators {
-		vals = append(vals, posTypes.NewValidator(v.Actor.Addr, v.Actor.Pub, sdk.NewInt(v.Stake)))
+		val := posTypes.NewValidator(v.Actor.Addr, v.Actor.Pub, sdk.NewInt(v.Stake))
+		if v.Unstaking {
+			val.Status = sdk.Unstaking
+			val.UnstakingCompletionTime = v.Completion
+		}
+		if v.Jailed {
+			val.Jailed = true
+			sinfos[v.Actor.AddrHex()] = posTypes.ValidatorSigningInfo{Address: v.Actor.Addr, StartHeight: 0, JailedUntil: v.JailedUntil}
+		}
+		vals = append(vals, val)
 		total.Add(total, big.NewInt(v.Stake))
+		if g.Exported && !v.Jailed && !v.Unstaking && v.Stake >= 1000000 {
+			prevPowers = append(prevPowers, posTypes.PrevStatePowerMapping{Address: v.Actor.Addr, Power: v.Stake / 1000000})
+			prevTotal += v.Stake / 1000000
+		}
 	}
 	supply := sdk.NewCoins(sdk.NewCoin(Denom, sdk.NewIntFromBigInt(total)))
 	if extra > 0 {
@@ -82,6 +106,14 @@ func (g GenesisConfig) AppState() []byte {
 	pgs.Params = g.PosParams
 	pgs.Validators = vals
 	pgs.PrevStateTotalPower = sdk.ZeroInt()
+	if len(sinfos) > 0 {
+		pgs.SigningInfos = sinfos
+	}
+	if g.Exported {
+		pgs.Exported = true
+		pgs.PrevStateValidatorPowers = prevPowers
+		pgs.PrevStateTotalPower = sdk.NewInt(prevTotal)
+	}
 	if len(g.Validators) > 0 {
 		pgs.PreviousProposer = g.Validators[0].Actor.Addr
 	}
